@@ -351,14 +351,40 @@ def checked_step(L, d, op, probe=False):
     return rec
 
 
+QUERY_MODES = ('predict', 'score')
+PURITY_MODE = 'scores changed by a query without a learn in between'
+
+
+def vec_differs(u, v):
+    return len(u) != len(v) or any(abs(x - y) > 1e-12 for x, y in zip(u, v))
+
+
+def check_history(d, hist):
+    """Every violation of one history, step invariants and the query-purity relation: [(key triple, what, steps needed)]."""
+    out = []
+    L = build(d)
+    vecs = {}
+    for i, op in enumerate(hist):
+        rec = checked_step(L, d, op, probe=(op[2] == 'probe'))
+        for k, what in rec.violations: out.append((k, what, i + 1))
+        if rec.dead: return out
+        if op[2] == 'score' and rec.scores is not None: vecs[i] = rec.scores
+    if not is_corral(d):
+        for i in sorted(vecs):
+            j = i
+            while j > 0 and hist[j - 1][2] in QUERY_MODES: j -= 1
+            if j == i: continue
+            L = run_history(d, hist[:j])                       # the same learning history without the queries
+            ref = checked_step(L, d, hist[i]).scores
+            if ref is not None and vec_differs(ref, vecs[i]):
+                out.append(((family(d), PURITY_MODE, ''), f'scores over {SETS[hist[i][0]][0]()!r} are {list(vecs[i])!r} after the queries '
+                            f'{[list(o) for o in hist[j:i]]!r}, {list(ref)!r} without them (same learning history)', i + 1))
+    return out
+
+
 def violates(d, hist, fam_mode):
     """Does the (checked) history violate with the same component and failure mode?"""
-    L = build(d)
-    for op in hist:
-        rec = checked_step(L, d, op, probe=(op[2] == 'probe'))
-        if any(k[:2] == fam_mode for k, _ in rec.violations): return True
-        if rec.dead: return False
-    return False
+    return any(k[:2] == fam_mode for k, _, _ in check_history(d, hist))
 
 
 def final_key(d, hist, k):
@@ -429,9 +455,12 @@ class C16(Check):
         """Plans (each a list of cases, cheap learners first inside a plan):
         quick     F  every configuration (Corral: seed 1) x each action set alone, full step alphabet, depth 4
                   X  Corral over 3 base learners (eta {1,10}), [1,2], rewards {0,.5} x {own, logged .01, logged .0001}, depth 4
+                  Q  seed 1 x all its action sets, rewards {0,1} x {own, learn without query} + predict only + score only: depth 3;
+                     Corral {own} + predict only: depth 2
                   C  seed 1 x all its action sets, rewards {0,1}: others depth 3 (20 steps), Corral depth 2 (30 steps)
         thorough  F  others depth 6; Corral depth 5, and depth 6 with rewards {0,1}
                   X  [1,2] and [1,2,3]: full rewards x {own, .5, .01, .0001} depth 4; rewards {0,.5} x {own, .01, .0001} depth 6
+                  Q  as quick for both seeds, depth 3 (also Corral); others seed 1: depth 4 over 3 action sets
                   C  others: depth 3 full alphabet (30 steps), seed 1 depth 4 with rewards {0,1} (20 steps);
                      Corral: depth 3 with rewards {0,1} (30 steps), seed 1 depth 4 over 3 action sets x rewards {0,1} x {own, tiny}
         Every quick case is contained in a thorough case."""
@@ -466,6 +495,19 @@ class C16(Check):
                 for s in ('i2', 'i3'):
                     yield case(d, [s], REWARDS, ['own', 'log', 'tiny', 'micro'], 4)
                     yield case(d, [s], [0, 0.5], ['own', 'tiny', 'micro'], 6)
+        # -- Q: queries that are not followed by a learn (predict only, score only), learn without a query before it
+        QM = ['own', 'learn', 'predict', 'score']
+        for d in cfgs:
+            sets = sets_of(d)
+            if len(sets) < 2: continue
+            cor = is_corral(d)
+            if quick:
+                if seed_of(d) == 1: yield case(d, sets, R01, ['own', 'predict'] if cor else QM, 2 if cor else 3)
+            elif cor:
+                yield case(d, sets, R01, ['own', 'predict'], 3)
+            else:
+                yield case(d, sets, R01, QM, 3)
+                if seed_of(d) == 1: yield case(d, sets[:3], R01, QM, 4)
         # -- C: the action set may change between rounds
         for d in cfgs:
             sets = sets_of(d)
@@ -484,7 +526,10 @@ class C16(Check):
     def run_case(self, case, acc):
         if 'history' in case: return self.run_witness(case, acc)
         d = case['learner']
-        ops = [(s, r, m) for s in case['sets'] for r in case['rewards'] for m in case['modes']]
+        ops = []
+        for sn in case['sets']:
+            ops += [(sn, r, m) for r in case['rewards'] for m in case['modes'] if m not in QUERY_MODES]
+            ops += [(sn, None, m) for m in case['modes'] if m in QUERY_MODES]
         depth = case['depth']
         fam = family(d)
         acc.count('cases_' + fam)
@@ -492,7 +537,9 @@ class C16(Check):
         t0 = acc.transitions
         L0 = build(d)
         c0 = canon(L0)
-        seen = {c0}
+        seen = {c0: 0}                      # canonical state -> index
+        svec = {}                           # (state index, action set) -> scores answered in that state
+        qedges = []                         # (state, state after a query without learn, history of the latter)
         frontier = deque([((), c0)])
         acc.states += 1
         while frontier:
@@ -511,34 +558,44 @@ class C16(Check):
                 if any(k[1] == HORIZON_MODE for k, _ in rec.violations):
                     acc.cap('case abandoned after a step exceeded the CPU horizon'); return
                 if rec.dead: continue
+                if op[2] == 'score' and rec.scores is not None: svec[(seen[chist], op[0])] = rec.scores
                 c2 = canon(L)
-                if c2 in seen: continue
-                seen.add(c2); acc.states += 1
-                if c2[0] != chist[0]: acc.mark_nontrivial(case_hash((d, h2)))
+                known = c2 in seen
+                if not known:
+                    seen[c2] = len(seen); acc.states += 1
+                    if c2[0] != chist[0]: acc.mark_nontrivial(case_hash((d, h2)))
+                if op[2] in QUERY_MODES and seen[c2] != seen[chist]: qedges.append((seen[chist], seen[c2], h2))
+                if known: continue
                 if len(h2) < depth:
                     frontier.append((h2, c2))
                 else:
-                    # leaf: the learner must still be able to predict (same action set)
-                    rec = checked_step(L, d, op, probe=True)
+                    # leaf: the learner must still be able to answer (same action set)
+                    hp = h2 + ((op[0], None, 'probe'),)
+                    rec = checked_step(L, d, hp[-1], probe=True)
                     for k, what in rec.violations:
-                        hp = h2 + ((op[0], None, 'probe'),)
                         acc.violation(final_key(d, hp, k), what, {'learner': d, 'history': [list(o) for o in hp]},
                                       order=(len(hp), acc._cur[0], acc._order))
                         acc._order += 1
+        # query purity: a predict / score that is not followed by a learn must not change what the learner answers
+        for ps, cs, h2 in qedges:
+            for sname in case['sets']:
+                u, v = svec.get((ps, sname)), svec.get((cs, sname))
+                if u is not None and v is not None and vec_differs(u, v):
+                    hp = h2 + ((sname, None, 'score'),)
+                    acc.violation(final_key(d, hp, (fam, PURITY_MODE, '')),
+                                  f'scores over {SETS[sname][0]()!r} are {list(v)!r} after the query {list(h2[-1])!r}, {list(u)!r} before it',
+                                  {'learner': d, 'history': [list(o) for o in hp]}, order=(len(hp), acc._cur[0], acc._order))
+                    acc._order += 1
         acc.count('states_' + fam, len(seen))
         acc.count(f"transitions_{fam}_{'fixed' if len(case['sets']) == 1 else 'changing'}_set", acc.transitions - t0)
 
     # -------------------------------------------------------------- replay of one history
     def run_witness(self, w, acc):
         d = w['learner']
-        L = build(d)
         hist = [tuple(o) for o in w['history']]
-        for i, op in enumerate(hist):
-            probe = op[2] == 'probe'
-            rec = checked_step(L, d, op, probe=probe)
-            acc.transitions += 1
-            for k, what in rec.violations: acc.violation(final_key(d, hist[:i + 1], k), what, w)
-            if rec.dead: break
+        for k, what, n in check_history(d, hist):
+            acc.violation(final_key(d, hist[:n], k), what, w)
+        acc.transitions += len(hist)
 
     def replay(self, witness, acc):
         signal.signal(signal.SIGVTALRM, _vt_alarm)
